@@ -147,6 +147,10 @@ func didGenesisRules(p *Prog, r *Report, m *didModel, clause string) {
 					ok = t.Args[2].Contains(func(x *Term) bool { return x.Eq(K) })
 				}
 			}
+			if !ok && t.Op == "call" && len(t.Args) == 4 {
+				// the walk over a sorted list of (key, value) pairs of the map: key = pairs(M)[i].K, value = *pairs(M)[i].V
+				ok = pairWalk(t.Args[2], t.Args[3])
+			}
 			r.Check(ok, kp("ORIGIN", "x/did.InitGenesis#stores-entry-unchanged"), "import stores the map entry's key and value untransformed", p.Pos(cs.Instr.Pos()),
 				"SetDIDDocument(ctx, key, *value) of the map iteration", "stored "+t.String())
 		}
